@@ -240,7 +240,7 @@ fn type_system_sources(thorough: bool) -> Vec<(&'static str, String)> {
                     }
                 }
             }
-            for m in ["A", "A | B", "A | B | C"] {
+            for m in ["A", "A | B", "A | B | C", "A | B | C | D", "A | B | C | D | E", "A | B | C | D | E | F | G | H | I", "M1 | M2 | M3 | M4 | M5 | M6 | M7 | M8 | M9 | M10 | M11 | M12 | M13 | M14 | M15 | M16 | M17"] {
                 v.push(("sdl-union", format!("{de}union U{di} = {m}")));
             }
             for es in enum_sets {
@@ -277,6 +277,8 @@ fn type_system_sources(thorough: bool) -> Vec<(&'static str, String)> {
         }
         v.push(("sdl-extend", format!("extend type T implements I{di}")));
         v.push(("sdl-extend", format!("extend union U{di} = C | D")));
+        v.push(("sdl-extend", format!("extend union U{di} = C | D | E | F | G")));
+        v.push(("sdl-extend", format!("extend union U{di} = C | D | E | F | G | H | I | J | K | L")));
         for es in enum_sets {
             v.push(("sdl-extend", format!("extend enum E{di} {{ {es} }}")));
         }
